@@ -150,6 +150,12 @@ func c20World(N, P, F int) (*vWorld, int) {
 	if verifChoice("starve", 2) == 1 {
 		o.ScaleOnStarve = true
 	}
+	switch c20Dry {
+	case 1:
+		w.dry = true // controller-wide --drymode only
+	case 2:
+		o.DryMode = true // the group's own option only
+	}
 	g := w.addGroup(o, 0, int64(N)+3, 0)
 	for i := 0; i < N; i++ {
 		is := "n" + strconv.Itoa(i)
@@ -199,12 +205,15 @@ func c20World(N, P, F int) (*vWorld, int) {
 	return w, g
 }
 
+var c20Dry int
+
 // VerifHarness_C20: a scan over odd objects with failing APIs never panics
 // (checked by the engine: a path ending in a Go panic is a violation), stops
 // only for the documented reasons, and the next fault-free scan proceeds.
-// shape: [nodes, pods, failure budget]
+// shape: [nodes, pods, failure budget, dry mode (0 off, 1 controller-wide, 2 the group's own option)]
 func VerifHarness_C20() {
 	N, P, F := verifShape(0), verifShape(1), verifShape(2)
+	c20Dry = verifShape(3)
 	w, _ := c20World(N, P, F)
 	verifFreezeClock(w.base+1, 0)
 	err := w.ctrl.RunOnce()
